@@ -273,6 +273,7 @@ def c13(ctx):
 TUI = "mon/MonTui.tla"
 TUI_ASSUME = ["trace data is injected as published rounds (Tracer::verif_apply_round) into non-running tracers; keys, ticks and resizes are scripted through the cfg-switched crossterm event source of run_app; frames are captured from a ratatui backend",
               "hostnames, AS and GeoIP text are not resolvable in the sandbox (no DNS, no mmdb), so the leak clauses are decided on IP address text (addresses also stand in for hostnames, which default to the address)",
+              "an address that several hops of the displayed data share (a target reached at different distances as the path changes) is attributed to none of them: it may be hidden in one row and must be shown in another; the address of the displayed trace's own target is reported separately (finding F13)",
               "terminal sizes 1x1 .. 300x100; column sets are the default and three custom sets (27 custom columns make the cassowary layout of ratatui run for minutes and are excluded)"]
 
 
